@@ -52,25 +52,25 @@ pub(crate) fn permutation_expressions<S: SelfEmulation>(
 
     // Enforce only for the first set.
     // l_0(X) * (1 - z_0(X)) = 0
-    let id_1 = {
-        let first_set = permutation_evals.sets.first().unwrap();
+    let id_1 = if let Some(first_set) = permutation_evals.sets.first() {
         let z_0 = &first_set.permutation_product_eval;
 
         // l_0 * (1 - z_0) computed as l_0 - l_0 * z_0
-        scalar_chip.add_and_mul(
+        Some(scalar_chip.add_and_mul(
             layouter,
             (S::F::ONE, l_0),
             (S::F::ZERO, z_0),
             (S::F::ZERO, l_0),
             S::F::ZERO,
             -S::F::ONE,
-        )?
+        )?)
+    } else {
+        None
     };
 
     // Enforce only for the last set.
     // l_last(X) * (z_l(X)^2 - z_l(X)) = 0
-    let id_2 = {
-        let last_set = permutation_evals.sets.last().unwrap();
+    let id_2 = if let Some(last_set) = permutation_evals.sets.last() {
         let z_l = &last_set.permutation_product_eval;
 
         // z_l**2 - z_l
@@ -82,7 +82,9 @@ pub(crate) fn permutation_expressions<S: SelfEmulation>(
             S::F::ZERO,
             S::F::ONE,
         )?;
-        scalar_chip.mul(layouter, l_last, &aux, None)?
+        Some(scalar_chip.mul(layouter, l_last, &aux, None)?)
+    } else {
+        None
     };
 
     // Except for the first set, enforce.
@@ -186,7 +188,9 @@ pub(crate) fn permutation_expressions<S: SelfEmulation>(
         })
         .collect::<Result<Vec<AssignedNative<S::F>>, Error>>()?;
 
-    Ok([vec![id_1, id_2], ids_3, ids_4].concat())
+    // A constraint system without permutation columns has no sets (and no identities here),
+    // exactly as in the off-circuit verifier.
+    Ok(id_1.into_iter().chain(id_2).chain(ids_3).chain(ids_4).collect())
 }
 
 fn get_query_index<C: ColumnType>(column: Column<Any>, queries: &[(Column<C>, Rotation)]) -> usize
